@@ -254,7 +254,7 @@ Qed.
 Lemma r2_known org its0 es : renders_doc2 spell org its0 es -> forall i acc code s,
   meaning_code cf ev ls i (instrs its0) acc = MOk code s -> Forall (fun l => Forall (known cf lbs') (line_names l)) (instrs its0).
 Proof.
-  induction 1 as [|org l its1 t k es Hl _ IH|org c k its1 es _ _ IH|e kw cmt k its1 es _ _ _ IH|org n e labs kw cmt k its1 es _ _ _ _ IH];
+  induction 1 as [|org l its1 t k es Hl _ IH|org c k its1 es _ _ IH|e kw cmt k its1 es _ _ _ IH|org n e labs kw cmt k its1 es _ _ _ _ IH|org c e k its1 es Hac _ IH];
     intros i acc code s H; cbn [instrs] in *; try (apply (IH _ _ _ _ H)); [constructor|].
   cbn [meaning_code] in H. destruct (instr_meaning cf ev ls i l) as [x| |] eqn:Ei; try discriminate.
   constructor; [apply (meaning_line_knownE l t i x Hl Ei)|apply (IH _ _ _ _ H)].
@@ -266,8 +266,8 @@ Definition shape2_ok (es : list (lelem * nat)) : Prop := Forall (fun xk => labs_
 Lemma r2_ok org its0 es : renders_doc2 spell org its0 es -> incl (flat_map il_labels (instrs its0) ++ map fst (equs its0)) ids ->
   shape2_ok es -> Forall (fun xk => lelem_ok (fst xk)) es.
 Proof.
-  induction 1 as [|org l its1 t k es Hl _ IH|org c k its1 es _ _ IH|e kw cmt k its1 es Hkw _ _ IH|org n e labs kw cmt k its1 es Hl Hkw _ _ IH];
-    intros Hinc Hsh; [constructor| | | |]; inversion Hsh as [|a b Ha Hb]; subst; cbn [fst] in Ha.
+  induction 1 as [|org l its1 t k es Hl _ IH|org c k its1 es _ _ IH|e kw cmt k its1 es Hkw _ _ IH|org n e labs kw cmt k its1 es Hl Hkw _ _ IH|org c e k its1 es Hac _ IH];
+    intros Hinc Hsh; [constructor| | | | |]; inversion Hsh as [|a b Ha Hb]; subst; cbn [fst] in Ha.
   - cbn [instrs equs flat_map] in Hinc. constructor.
     + cbn [fst lelem_ok]. apply (tline_rendered spell lbs' Hsp' l t); [|exact Hl|exact Ha].
       rewrite lbs'_keys. intros x Hx. apply Hinc. apply in_or_app. left. apply in_or_app. left. exact Hx.
@@ -282,6 +282,7 @@ Proof.
       * rewrite Hl. constructor; [|constructor]. apply (sp_lab _ _ Hsp n). apply Hinc. apply in_or_app. right. left. reflexivity.
       * unfold dir_ok. repeat split; try assumption; try apply K1; [apply etoks_terms|apply etoks_nonempty].
     + apply IH; [|exact Hb]. intros x Hx. apply Hinc. apply in_app_or in Hx. destruct Hx as [Hx|Hx]; apply in_or_app; [left; exact Hx|right; right; exact Hx].
+  - constructor; [exact I|apply IH; assumption].
 Qed.
 End EquGlue.
 
@@ -326,8 +327,8 @@ Lemma r2_plines org its0 es : renders_doc2 spell org its0 es -> Forall (fun xk =
   Forall (fun xk => labs_shape (fst xk)) es ->
   Forall pline_ok (flat_map elem_plines es).
 Proof.
-  induction 1 as [|org l its1 t k es Hl _ IH|org c k its1 es _ _ IH|e kw cmt k its1 es Hkw _ _ IH|org n e labs kw cmt k its1 es Hl Hkw _ _ IH];
-    intros Hok Hsh; [constructor| | | |]; inversion Hok as [|a b Ha Hb]; subst; inversion Hsh as [|a b Hs1 Hs2]; subst; cbn [fst] in Ha, Hs1;
+  induction 1 as [|org l its1 t k es Hl _ IH|org c k its1 es _ _ IH|e kw cmt k its1 es Hkw _ _ IH|org n e labs kw cmt k its1 es Hl Hkw _ _ IH|org c e k its1 es Hac _ IH];
+    intros Hok Hsh; [constructor| | | | |]; inversion Hok as [|a b Ha Hb]; subst; inversion Hsh as [|a b Hs1 Hs2]; subst; cbn [fst] in Ha, Hs1;
     cbn [flat_map]; apply Forall_app; (split; [|apply IH; assumption]); unfold elem_plines; cbn [fst snd]; (constructor; [|apply empty_pline_ok]).
   - (* an instruction line *)
     cbn [lelem_ok] in Ha. destruct Ha as [Hhd [Hnm [Hop [[HA1 _] HB]]]]. cbn [line_rest fst snd].
@@ -350,14 +351,15 @@ Proof.
     + constructor; [split; [reflexivity|discriminate]|]. apply Forall_app. split; [apply terms_plain; exact He|apply cmt_plain_tok].
     + unfold pl_first. cbn [pl_rest pl_labels app hd].
       destruct (group_acc None labs); [right|]; (split; [reflexivity|left; split; assumption]).
+  - cbn [line_rest fst snd group_acc]. split; [constructor|]. split; [repeat constructor; discriminate|]. cbn. left. discriminate.
 Qed.
 
 Lemma r2_scan org its0 es : renders_doc2 spell org its0 es -> Forall (fun xk => labs_shape (fst xk)) es ->
   forall syms, NoDup (map fst syms ++ map spell (map fst (equs its0))) ->
   forall K, (forall m0, K m0 <> SRErr) -> scan_spec (flat_map elem_plines es) syms K <> SRErr.
 Proof.
-  induction 1 as [|org l its1 t k es [_ [Hop _]] _ IH|org c k its1 es _ _ IH|e kw cmt k its1 es Hkw _ _ IH|org n e labs kw cmt k its1 es Hl Hkw _ _ IH];
-    intros Hsh syms Hnd K HK; [apply HK| | | |]; inversion Hsh as [|a b Hs1 Hs2]; subst; cbn [fst] in Hs1;
+  induction 1 as [|org l its1 t k es [_ [Hop _]] _ IH|org c k its1 es _ _ IH|e kw cmt k its1 es Hkw _ _ IH|org n e labs kw cmt k its1 es Hl Hkw _ _ IH|org c e k its1 es Hac _ IH];
+    intros Hsh syms Hnd K HK; [apply HK| | | | |]; inversion Hsh as [|a b Hs1 Hs2]; subst; cbn [fst] in Hs1;
     cbn [flat_map]; rewrite scan_spec_app; unfold elem_plines; cbn [fst snd scan_spec]; unfold line_result.
   - (* instruction: neither EQU nor END *)
     destruct (optext_tok _ _ _ Hop) as [O1 [O2 O3]].
@@ -381,14 +383,15 @@ Proof.
     + unfold sym_has in Hfresh. intros Hin. destruct (sym_find (spell n) syms) eqn:E; [discriminate Hfresh|]. 
       clear - Hin E. induction syms as [|[k0 v0] s IHs]; [destruct Hin|]. cbn [sym_find map fst In] in *.
       destruct (text_eqb (spell n) k0) eqn:Eq; [discriminate E|]. destruct Hin as [Hin|Hin]; [subst k0; rewrite text_eqb_refl in Eq; discriminate Eq|apply IHs; assumption].
+  - cbn [line_rest fst snd group_acc]. unfold is_kw, pl_first. cbn [pl_rest app hd t_typ ttype_eqb andb]. rewrite scan_spec_empty. apply IH; assumption.
 Qed.
 (* without an END line the scan runs through: the continuation receives the symbols *)
 Lemma r2_scan_value org its0 es : renders_doc2 spell org its0 es -> Forall (fun xk => labs_shape (fst xk)) es ->
   forall syms, NoDup (map fst syms ++ map spell (map fst (equs its0))) ->
   exists m, forall K, scan_spec (flat_map elem_plines es) syms K = K m.
 Proof.
-  induction 1 as [|org l its1 t k es [_ [Hop _]] _ IH|org c k its1 es _ _ IH|e kw cmt k its1 es Hkw _ _ IH|org n e labs kw cmt k its1 es Hl Hkw _ _ IH];
-    intros Hsh syms Hnd; [exists syms; reflexivity| | | |]; inversion Hsh as [|a b Hs1 Hs2]; subst; cbn [fst] in Hs1.
+  induction 1 as [|org l its1 t k es [_ [Hop _]] _ IH|org c k its1 es _ _ IH|e kw cmt k its1 es Hkw _ _ IH|org n e labs kw cmt k its1 es Hl Hkw _ _ IH|org c e k its1 es Hac _ IH];
+    intros Hsh syms Hnd; [exists syms; reflexivity| | | | |]; inversion Hsh as [|a b Hs1 Hs2]; subst; cbn [fst] in Hs1.
   - destruct (IH Hs2 syms Hnd) as [m Hm]. exists m. intros K.
     cbn [flat_map]; rewrite scan_spec_app; unfold elem_plines; cbn [fst snd scan_spec]; unfold line_result.
     destruct (optext_tok _ _ _ Hop) as [O1 [O2 O3]].
@@ -419,6 +422,9 @@ Proof.
     replace (ttype_eqb tokText tokText) with true by reflexivity. cbn [andb].
     rewrite group_names. cbn [app]. rewrite Hl. cbn [define_all].
     rewrite Hfresh. rewrite scan_spec_empty. rewrite (sym_set_fresh (spell n)) by exact Hnotin. apply Hm.
+  - destruct (IH Hs2 syms Hnd) as [m Hm]. exists m. intros K.
+    cbn [flat_map]; rewrite scan_spec_app; unfold elem_plines; cbn [fst snd scan_spec]; unfold line_result.
+    cbn [line_rest fst snd group_acc]. unfold is_kw, pl_first. cbn [pl_rest app hd t_typ ttype_eqb andb]. rewrite scan_spec_empty. apply Hm.
 Qed.
 Lemma etoks_noncomment e : filter noncomment (etoks spell e) = etoks spell e.
 Proof.
@@ -435,8 +441,8 @@ Lemma r2_scan_table org its0 es : renders_doc2 spell org its0 es -> Forall (fun 
   forall syms, NoDup (map fst syms ++ map spell (map fst (equs its0))) ->
   forall K, scan_spec (flat_map elem_plines es) syms K = K (syms ++ equ_entries spell (equs its0)).
 Proof.
-  induction 1 as [|org l its1 t k es [_ [Hop _]] _ IH|org c k its1 es _ _ IH|e kw cmt k its1 es Hkw _ _ IH|org n e labs kw cmt k its1 es Hl Hkw _ _ IH];
-    intros Hsh syms Hnd; [intros K; cbn [equs equ_entries map]; rewrite app_nil_r; reflexivity| | | |]; inversion Hsh as [|a b Hs1 Hs2]; subst; cbn [fst] in Hs1.
+  induction 1 as [|org l its1 t k es [_ [Hop _]] _ IH|org c k its1 es _ _ IH|e kw cmt k its1 es Hkw _ _ IH|org n e labs kw cmt k its1 es Hl Hkw _ _ IH|org c e k its1 es Hac _ IH];
+    intros Hsh syms Hnd; [intros K; cbn [equs equ_entries map]; rewrite app_nil_r; reflexivity| | | | |]; inversion Hsh as [|a b Hs1 Hs2]; subst; cbn [fst] in Hs1.
   - pose proof (IH Hs2 syms Hnd) as Hm. intros K. cbn [equs].
     cbn [flat_map]; rewrite scan_spec_app; unfold elem_plines; cbn [fst snd scan_spec]; unfold line_result.
     destruct (optext_tok _ _ _ Hop) as [O1 [O2 O3]].
@@ -469,6 +475,9 @@ Proof.
     rewrite group_names. cbn [app]. rewrite Hl. cbn [define_all].
     rewrite Hfresh. rewrite scan_spec_empty. rewrite (sym_set_fresh (spell n)) by exact Hnotin. rewrite equ_value_line, Hm.
     cbn [equs equ_entries map fst snd]. rewrite <- app_assoc. reflexivity.
+  - pose proof (IH Hs2 syms Hnd) as Hm. intros K. cbn [equs].
+    cbn [flat_map]; rewrite scan_spec_app; unfold elem_plines; cbn [fst snd scan_spec]; unfold line_result.
+    cbn [line_rest fst snd group_acc]. unfold is_kw, pl_first. cbn [pl_rest app hd t_typ ttype_eqb andb]. rewrite scan_spec_empty. apply Hm.
 Qed.
 End EquGlue2.
 
@@ -500,8 +509,8 @@ Lemma r2_counts org its0 es : renders_doc2 spell org its0 es ->
   forall rest, counts_modelled (body es ++ rest) None = counts_modelled rest None.
 Proof.
   pose proof (Hsp' spell its Hsp) as Hs'.
-  induction 1 as [|org l its1 t k es Hl _ IH|org c k its1 es _ _ IH|e kw cmt k its1 es Hkw _ _ IH|org n e labs kw cmt k its1 es Hl Hkw _ _ IH];
-    intros Hinc Hok Hk Hkn Ho rest; [reflexivity| | | |]; inversion Hok as [|a b Ha Hb]; subst; inversion Hk as [|a b Hk1 Hk2]; subst; cbn [fst snd] in Ha, Hk1;
+  induction 1 as [|org l its1 t k es Hl _ IH|org c k its1 es _ _ IH|e kw cmt k its1 es Hkw _ _ IH|org n e labs kw cmt k its1 es Hl Hkw _ _ IH|org c e k its1 es Hac _ IH];
+    intros Hinc Hok Hk Hkn Ho rest; [reflexivity| | | | |]; inversion Hok as [|a b Ha Hb]; subst; inversion Hk as [|a b Hk1 Hk2]; subst; cbn [fst snd] in Ha, Hk1;
     rewrite body_cons, <- !app_assoc.
   - cbn [instrs equs flat_map] in Hinc, Hkn. inversion Hkn as [|a b Hkl Hkr]; subst.
     cbn [lelem_toks]. rewrite cm_skip; [rewrite cm_skip by apply repeat_nl_skippable; apply IH; try assumption|].
@@ -535,6 +544,8 @@ Proof.
     + apply Forall_app. split.
       * eapply Forall_impl; [|exact He]. intros t0 Ht0. unfold term_tok, tok_is_expr_term in Ht0. destruct (t_typ t0); try discriminate Ht0; repeat split; discriminate.
       * destruct cmt; repeat constructor; discriminate.
+  - cbn [lelem_toks]. rewrite cm_skip; [rewrite cm_skip by apply repeat_nl_skippable; apply IH; assumption|].
+    constructor; [|constructor]. split; [intros X; discriminate X|split; discriminate].
 Qed.
 
 (* the names referred to: defined ones *)
@@ -544,12 +555,13 @@ Lemma r2_refs (S : text -> Prop) org its0 es : renders_doc2 spell org its0 es ->
   (forall id, known cf lbs id -> S (spell id)) ->
   forall rf, (forall r, In r rf -> S r) -> forall r, In r (drefs rf es) -> S r.
 Proof.
-  induction 1 as [|org l its1 t k es Hl _ IH|org c k its1 es _ _ IH|e kw cmt k its1 es _ _ _ IH|org n e labs kw cmt k its1 es _ _ _ _ IH];
-    intros Hk Ho Hb HS rf Hrf; cbn [drefs instrs equs] in *; [exact Hrf| | | |].
+  induction 1 as [|org l its1 t k es Hl _ IH|org c k its1 es _ _ IH|e kw cmt k its1 es _ _ _ IH|org n e labs kw cmt k its1 es _ _ _ _ IH|org c e k its1 es Hac _ IH];
+    intros Hk Ho Hb HS rf Hrf; cbn [drefs instrs equs] in *; [exact Hrf| | | | |].
   - inversion Hk as [|a b Ha Hb']; subst. apply (IH Hb' Ho Hb HS). apply (refs_line spell cfg lbs l t rf S Hl Ha HS Hrf).
   - apply (IH Hk Ho Hb HS rf Hrf).
   - apply (IH Hk I Hb HS). apply (expr_refs spell cfg lbs); assumption.
   - inversion Hb as [|a b Hb1 Hb2]; subst. cbn [snd] in Hb1. apply (IH Hk Ho Hb2 HS). apply (expr_refs spell cfg lbs); assumption.
+  - apply (IH Hk Ho Hb HS rf Hrf).
 Qed.
 End EquGlue3.
 
@@ -599,7 +611,7 @@ Proof.
   assert (Hfacts : Forall (fun l => Forall (known cf (lbs' its)) (line_names l)) ils /\ org_known cfg (lbs' its) org).
   { pose proof Hmean as Hm2. unfold meaning in Hm2. cbn [pr_items pr_end_labels pr_org pr_end] in Hm2.
     rewrite (collect_plain its 0 [] [] [] Hplain) in Hm2. cbn [app map] in Hm2. rewrite app_nil_r in Hm2.
-    rewrite (assertions_plain _ _ _ its Hplain) in Hm2. fold ev ils ls in Hm2.
+    fold ev ils ls in Hm2. destruct (assertions cf ev ls its) as [ac0 as0| |]; try discriminate.
     destruct (meaning_code cf ev ls 0 ils []) as [code' s'| |] eqn:Emc; try discriminate.
     split; [apply (r2_known spell cfg its org its es Hrd 0 [] code' s' Emc)|].
     destruct (mf_len cf <? Z.of_nat (length code')); [discriminate|].
